@@ -613,3 +613,747 @@ def gm_class_state_replay():
 
 def gm_class_state(ctx):
     _run_oracles(ctx, 'gm-class-state', 'search:fit-leaves-state-shared-between-models', [(('constant-label',), 'gm_class_state_replay', ())])
+
+
+# ----------------------------------------------------------------------------------------------------------------------
+# C11: select_copula - results handed out earlier, class-level state, hash-seed independence
+# ----------------------------------------------------------------------------------------------------------------------
+def _copula_table(fam, tau, n, seed, reflect=0.0):
+    from .extra_oracles import _biv_new
+    th = {'clayton': 2 * tau / (1 - tau), 'gumbel': 1 / (1 - tau), 'frank': 9.0 * tau}[fam]
+    c = _biv_new(fam, th, seed=seed)
+    with _default_ambient():
+        X = np.asarray(c.sample(n), dtype=float)
+    if reflect:
+        k = int(n * reflect)
+        X[:k] = 1.0 - X[:k]
+    return np.clip(X, 1e-6, 1 - 1e-6)
+
+
+def select_results_kept_replay():
+    """copulas returned by select_copula keep their tau / theta / to_dict whatever is selected later; fresh instances start unfitted"""
+    from copulas.bivariate import Bivariate, Clayton, Frank, Gumbel, select_copula
+    from scipy.stats import kendalltau
+    with _default_ambient():
+        tabs = [_copula_table('clayton', 0.5, 600, 3), _copula_table('gumbel', 0.3, 600, 4), _copula_table('clayton', 0.65, 600, 5),
+                np.column_stack([np.linspace(.01, .99, 50), np.linspace(.99, .01, 50)]), _copula_table('gumbel', 0.55, 600, 6),
+                np.column_stack([np.linspace(.01, .99, 40), np.linspace(.01, .99, 40)])]
+        kept = []
+        for X in tabs:
+            try:
+                c = select_copula(X)
+            except Exception:
+                continue
+            kept.append((c, float(kendalltau(X[:, 0], X[:, 1])[0]), float(c.theta), dict(c.to_dict())))
+            for c0, t0, th0, d0 in kept:
+                if not (abs(float(c0.tau) - t0) <= 1e-12) or float(c0.theta) != th0 or c0.to_dict() != d0:
+                    return (f'a {type(c0).__name__} returned by select_copula (tau {t0!r}, theta {th0!r}) now reports tau = {c0.tau!r}, theta = {c0.theta!r}, '
+                            f'to_dict = {c0.to_dict()} after {len(kept)} further select_copula calls')
+        for cls in (Clayton, Frank, Gumbel):
+            f = cls()
+            if f.tau is not None or f.theta is not None:
+                return f'after select_copula calls a fresh {cls.__name__}() has tau = {f.tau!r}, theta = {f.theta!r} (class-level state)'
+        b = Bivariate(copula_type='clayton')
+        if b.tau is not None:
+            return f'after select_copula calls a fresh Bivariate(copula_type="clayton") has tau = {b.tau!r}'
+    return None
+
+
+_HASHSEED_SCRIPT = r'''
+import sys, json, numpy as np, warnings
+warnings.simplefilter('ignore')
+sys.path.insert(0, sys.argv[1]); sys.path.insert(0, sys.argv[2])
+from vf import extra_oracles3 as E
+print(json.dumps(getattr(E, sys.argv[3])()))
+'''
+
+
+def _in_hashseeds(fname, seeds=(0, 1, 5, 11)):
+    """runs E.<fname>() in fresh interpreters with different PYTHONHASHSEED; returns {seed: json value}"""
+    import json
+    import os
+    import subprocess
+    import sys
+    from .core import REPO
+    tools = os.path.dirname(os.path.dirname(os.path.abspath(__file__)))
+    out = {}
+    for s in seeds:
+        env = dict(os.environ, PYTHONHASHSEED=str(s))
+        r = subprocess.run([sys.executable, '-W', 'ignore', '-c', _HASHSEED_SCRIPT, REPO, tools, fname], env=env, stdout=subprocess.PIPE, stderr=subprocess.PIPE,
+                           text=True, timeout=600)
+        if r.returncode != 0:
+            out[s] = ('err', r.stderr[-300:])
+        else:
+            out[s] = ('ok', json.loads(r.stdout.strip().split('\n')[-1]))
+    return out
+
+
+def _clayton_mixture(tau, weight, n, seed):
+    """a Clayton sample mixed with its survival reflection: dependence in BOTH tails, where the Clayton and Gumbel rank scores of select_copula tie"""
+    rs = np.random.RandomState(seed)
+    theta = 2 * tau / (1 - tau)
+    v = rs.uniform(size=n)
+    c = rs.uniform(size=n)
+    u = ((c ** (-theta / (1 + theta)) - 1) * v ** (-theta) + 1) ** (-1 / theta)
+    X = np.column_stack((u, v))
+    flip = rs.uniform(size=n) < weight
+    X[flip] = 1 - X[flip]
+    return X
+
+
+def _select_tie_tables():
+    from copulas.bivariate import select_copula
+    res = []
+    with _default_ambient():
+        for tau, weight, seed in ((0.3, 0.4, 0), (0.4, 0.5, 1), (0.3, 0.5, 10), (0.4, 0.4, 24), (0.5, 0.4, 10), (0.5, 0.4, 24), (0.6, 0.45, 10)):
+            c = select_copula(_clayton_mixture(tau, weight, 3000, seed))
+            res.append([type(c).__name__, float(c.tau).hex(), float(c.theta).hex()])
+    return res
+
+
+def select_hashseed_replay():
+    """the selected family is a function of X: the same arrays in interpreters with different PYTHONHASHSEED (data with dependence in BOTH tails,
+    where the Clayton / Gumbel scores tie)"""
+    outs = _in_hashseeds('_select_tie_tables')
+    ref_seed = sorted(outs)[0]
+    for s, v in outs.items():
+        if v[0] == 'err':
+            return f'select_copula raised in a fresh interpreter with PYTHONHASHSEED={s}: {v[1]}'
+        if v != outs[ref_seed]:
+            diff = [i for i, (a, b) in enumerate(zip(v[1], outs[ref_seed][1])) if a != b]
+            return (f'select_copula on the same arrays returns {[v[1][i] for i in diff]} with PYTHONHASHSEED={s} and '
+                    f'{[outs[ref_seed][1][i] for i in diff]} with PYTHONHASHSEED={ref_seed} (tables {diff})')
+    return None
+
+
+def select_round6(ctx):
+    _run_oracles(ctx, 'select-copula', 'search:select-copula', [(('results-kept',), 'select_results_kept_replay', ()), (('hash-seed',), 'select_hashseed_replay', ())])
+
+
+# ----------------------------------------------------------------------------------------------------------------------
+# Gaussian copula: failed re-fit, restored models, nullable dtypes, float32 training, failed save, hash seeds (C12 - C15, C19)
+# ----------------------------------------------------------------------------------------------------------------------
+def _gm_table(seed=71, n=300):
+    import pandas as pd
+    rs = np.random.RandomState(seed)
+    S = np.array([[1.0, 0.6, 0.3, 0.2], [0.6, 1.0, 0.5, 0.1], [0.3, 0.5, 1.0, 0.4], [0.2, 0.1, 0.4, 1.0]])
+    z = rs.multivariate_normal(np.zeros(4), S, size=n)
+    return pd.DataFrame({'a': 2.0 * z[:, 0] + 1.0, 'b': 0.5 * z[:, 1] + 3.0, 'c': z[:, 2] - 3.0, 'd': 4.0 * z[:, 3]})
+
+
+def gm_failed_refit_replay(kind):
+    """fit T1; a re-fit that RAISES half-way (kind); the model is what it was (same to_dict, same conditional and unconditional samples under
+    the same seed) or declares itself unfitted"""
+    import pandas as pd
+    from copulas.multivariate import GaussianMultivariate
+    G = 'copulas.univariate.gaussian.GaussianUnivariate'
+    T1 = _gm_table()
+    rs = np.random.RandomState(5)
+    T2 = pd.DataFrame(rs.normal(size=(120, 5)) * [1, 2, 3, 4, 5] + [9, 8, 7, 6, 5], columns=list('abcde'))
+    with _default_ambient():
+        if kind == 'bad-name-last-column':
+            m = GaussianMultivariate(distribution={'a': G, 'b': G, 'c': G, 'd': G, 'e': 'copulas.univariate.gausian.GaussianUnivariate'}, random_state=7)
+            bad = T2
+        elif kind == 'bad-name-middle-column':
+            m = GaussianMultivariate(distribution={'a': G, 'b': G, 'c': G, 'd': G, 'x': 'copulas.univariate.nothere.Nope'}, random_state=7)
+            bad = T2.rename(columns={'c': 'x'})[['a', 'b', 'x', 'd']]
+        elif kind == 'string-column':
+            m = GaussianMultivariate(distribution=G, random_state=7)
+            bad = T2.assign(c=['s'] * len(T2))
+        elif kind == 'nan-table':
+            m = GaussianMultivariate(distribution=G, random_state=7)
+            bad = T2.copy()
+            bad.iloc[3, 2] = np.nan
+        else:
+            raise ValueError(kind)
+        m.fit(T1)
+        d0 = repr(m.to_dict())
+        m.set_random_state(101)
+        s0 = m.sample(50, {'b': 3.4, 'd': -2.0})
+        u0 = m.sample(20)
+        try:
+            m.fit(bad)
+            return None                 # not refused: nothing to compare (other oracles judge the accepted fit)
+        except Exception:
+            pass
+        try:
+            m.check_fit()
+        except Exception:
+            return None                 # declares itself unfitted
+        if repr(m.to_dict()) != d0:
+            return f'GaussianMultivariate: after a re-fit that raised ({kind}) the still-fitted model has another to_dict()'
+        m.set_random_state(101)
+        s1 = m.sample(50, {'b': 3.4, 'd': -2.0})
+        u1 = m.sample(20)
+    if list(s1.columns) != list(s0.columns) or not np.allclose(s1.to_numpy(dtype=float), s0.to_numpy(dtype=float), rtol=1e-12, atol=0):
+        return (f'GaussianMultivariate: after a re-fit that raised ({kind}) the still-fitted model draws other conditional samples under the same seed '
+                f'(first row {s1.iloc[0].tolist()} instead of {s0.iloc[0].tolist()})')
+    if not np.allclose(u1.to_numpy(dtype=float), u0.to_numpy(dtype=float), rtol=1e-12, atol=0):
+        return f'GaussianMultivariate: after a re-fit that raised ({kind}) the still-fitted model draws other samples under the same seed'
+    return None
+
+
+def gm_failed_refit(ctx):
+    _run_oracles(ctx, 'gm-failed-refit', 'search:failed-refit-changes-model',
+                 [((k,), 'gm_failed_refit_replay', (k,)) for k in ('bad-name-last-column', 'bad-name-middle-column', 'string-column', 'nan-table')])
+
+
+def gm_restored_models_replay(path):
+    """restore A, restore B (other labels / order / width), observe A: DataFrame, Series and array queries of A answer like the original"""
+    import json
+    import os
+    import tempfile
+    import pandas as pd
+    from copulas.multivariate import GaussianMultivariate, Multivariate
+    from copulas.univariate import GaussianUnivariate
+    TA = _gm_table(73)
+    TB = _gm_table(79)[['d', 'a']].rename(columns={'d': 'p', 'a': 'q'})
+    TB['a'] = np.random.RandomState(2).gamma(2.0, 1.0, len(TB))
+    with _default_ambient():
+        A = GaussianMultivariate(distribution=GaussianUnivariate)
+        A.fit(TA)
+        B = GaussianMultivariate(distribution=GaussianUnivariate)
+        B.fit(TB)
+        Q = TA.iloc[:6].reset_index(drop=True)
+        want_pdf, want_cdf = np.asarray(A.probability_density(Q), dtype=float), np.asarray(A.cumulative_distribution(Q), dtype=float)
+
+        def rebuild(m):
+            if path == 'dict':
+                return GaussianMultivariate.from_dict(m.to_dict())
+            if path == 'generic':
+                return Multivariate.from_dict(m.to_dict())
+            if path == 'json':
+                return GaussianMultivariate.from_dict(json.loads(json.dumps(m.to_dict())))
+            fd, p = tempfile.mkstemp(suffix='.pkl')
+            os.close(fd)
+            try:
+                m.save(p)
+                return GaussianMultivariate.load(p)
+            finally:
+                os.unlink(p)
+        A2 = rebuild(A)
+        B2 = rebuild(B)
+        B2.probability_density(TB.iloc[:3])
+        if list(A2.to_dict()['columns']) != list(TA.columns):
+            return f'{path}: after a second model was rebuilt, the first rebuilt model reports the columns {list(A2.to_dict()["columns"])}'
+        for cn, q in (('DataFrame', Q), ('permuted DataFrame', Q[['c', 'a', 'd', 'b']]), ('ndarray', Q.to_numpy()), ('Series', Q.iloc[0])):
+            got = np.asarray(A2.probability_density(q), dtype=float).ravel()
+            w = want_pdf[:1] if cn == 'Series' else want_pdf
+            if got.shape != w.shape or not np.allclose(got, w, rtol=1e-9, atol=1e-300):
+                return (f'{path}: rebuild(A); rebuild(B with other columns); A\'s probability_density on a {cn} = {got.tolist()[:3]}, the original model '
+                        f'answers {w.tolist()[:3]}')
+        got = np.asarray(A2.cumulative_distribution(Q), dtype=float)
+        if not np.allclose(got, want_cdf, rtol=0, atol=2e-3):
+            return f'{path}: rebuild(A); rebuild(B); A\'s cumulative_distribution = {got.tolist()[:3]} instead of {want_cdf.tolist()[:3]}'
+    return None
+
+
+def gm_restored_models(ctx):
+    _run_oracles(ctx, 'gm-restored-models', 'search:restored-models-share-state', [((p,), 'gm_restored_models_replay', (p,)) for p in ('dict', 'generic', 'json', 'file')])
+
+
+def gm_query_dtypes_replay(kind):
+    """query frames / Series holding the same finite numbers in a nullable, integer, boolean-next-to-float or object representation"""
+    import pandas as pd
+    from copulas.multivariate import GaussianMultivariate
+    from copulas.univariate import GaussianUnivariate
+    rs = np.random.RandomState(83)
+    T = pd.DataFrame({'a': rs.normal(2, 1, 200), 'b': rs.normal(0, 3, 200).round(), 'c': (rs.uniform(size=200) > 0.4).astype(float)})
+    with _default_ambient():
+        m = GaussianMultivariate(distribution=GaussianUnivariate)
+        m.fit(T)
+        Q = pd.DataFrame({'a': [1.5, 2.5, 3.0], 'b': [1.0, -2.0, 0.0], 'c': [1.0, 0.0, 1.0]})
+        want = np.asarray(m.probability_density(Q), dtype=float)
+        wc = np.asarray(m.cumulative_distribution(Q), dtype=float)
+        Q2 = {'nullable-Float64': lambda: Q.astype('Float64'), 'nullable-Int64-column': lambda: Q.astype({'b': 'Int64'}), 'int64-column': lambda: Q.astype({'b': 'int64'}),
+              'bool-column': lambda: Q.astype({'c': bool}), 'float32': lambda: Q.astype('float32'), 'mixed-nullable': lambda: Q.astype({'a': 'Float64', 'b': 'Int64'}),
+              'series-nullable': lambda: Q.iloc[0].astype('Float64')}[kind]()
+        try:
+            got = np.asarray(m.probability_density(Q2), dtype=float).ravel()
+            gc = np.asarray(m.cumulative_distribution(Q2), dtype=float).ravel()
+        except Exception as ex:
+            return (f'probability_density / cumulative_distribution raise {type(ex).__name__} ({str(ex)[:80]}) for query points given as {kind}; the same numbers '
+                    'as float64 are answered')
+    w = want[:1] if kind.startswith('series') else want
+    rt = 1e-4 if kind == 'float32' else 1e-9
+    if got.shape != w.shape or not np.allclose(got, w, rtol=rt, atol=1e-300):
+        return f'probability_density with the query points given as {kind} = {got.tolist()}; as float64 {w.tolist()}'
+    if not np.allclose(gc, wc[:1] if kind.startswith('series') else wc, rtol=0, atol=2e-3):
+        return f'cumulative_distribution with the query points given as {kind} = {gc.tolist()}; as float64 {wc.tolist()}'
+    return None
+
+
+def gm_query_dtypes(ctx):
+    _run_oracles(ctx, 'gm-query-dtypes', 'search:result-depends-on-container',
+                 [((k,), 'gm_query_dtypes_replay', (k,)) for k in ('nullable-Float64', 'nullable-Int64-column', 'int64-column', 'bool-column', 'float32', 'mixed-nullable', 'series-nullable')])
+
+
+def failed_save_replay(kind):
+    """save() to a path that cannot be written raises; the model answers exactly as before (constant and non-constant univariates, copulas)"""
+    import pandas as pd
+    from copulas import univariate as U
+    from copulas.bivariate import Bivariate
+    from copulas.multivariate import GaussianMultivariate, VineCopula
+    xs, qs = np.linspace(0.5, 6, 7), np.array([0.1, 0.5, 0.9])
+    with _default_ambient():
+        if kind.startswith('constant:') or kind.startswith('data:'):
+            cls = getattr(U, kind.split(':')[1])
+            m = cls()
+            m.fit(np.full(20, 4.25) if kind.startswith('constant:') else _uni_data())
+
+            def snap():
+                m.set_random_state(3)
+                return [np.asarray(m.cumulative_distribution(xs), dtype=float), np.asarray(m.probability_density(xs), dtype=float),
+                        np.asarray(m.percent_point(qs), dtype=float), np.asarray(m.sample(4), dtype=float), repr(m.to_dict())]
+        elif kind == 'frank':
+            m = Bivariate(copula_type='frank', random_state=3)
+            m.fit(_copula_table('frank', 0.4, 200, 9))
+            P = _biv_batch('probability_density')
+
+            def snap():
+                return [np.asarray(m.cumulative_distribution(P), dtype=float), np.asarray(m.probability_density(P), dtype=float), repr(m.to_dict())]
+        elif kind == 'gm-constant-column':
+            T = _gm_table(87, 120)[['a', 'b']].assign(k=2.5)
+            m = GaussianMultivariate(random_state=3, distribution=U.GaussianUnivariate)
+            m.fit(T)
+
+            def snap():
+                m.set_random_state(3)
+                return [m.sample(5).to_numpy(dtype=float), np.asarray(m.probability_density(T.iloc[:4]), dtype=float), repr(m.to_dict())]
+        else:
+            T = _gm_table(89, 80)[['a', 'b', 'c']]
+            m = VineCopula('center', random_state=3)
+            m.fit(T)
+
+            def snap():
+                m.set_random_state(3)
+                return [np.asarray(m.sample(3), dtype=float), repr(sorted(m.to_dict().keys()))]
+        before = snap()
+        for p in ('/nonexistent-dir-vf/sub/model.pkl', '/proc/version/x.pkl'):
+            try:
+                m.save(p)
+            except Exception:
+                pass
+        after = snap()
+    for a, b in zip(before, after):
+        same = (a == b) if isinstance(a, str) else (np.shape(a) == np.shape(b) and np.allclose(a, b, rtol=1e-12, atol=0, equal_nan=True))
+        if not same:
+            return f'{kind}: after save() to an unwritable path raised, the model answers {str(b)[:120]} instead of {str(a)[:120]}'
+    return None
+
+
+def failed_save(ctx):
+    kinds = ['constant:GaussianUnivariate', 'constant:BetaUnivariate', 'constant:GaussianKDE', 'constant:TruncatedGaussian', 'data:GaussianKDE', 'data:GammaUnivariate',
+             'frank', 'gm-constant-column', 'vine']
+    _run_oracles(ctx, 'failed-save', 'search:failed-save-changes-model', [((k,), 'failed_save_replay', (k,)) for k in kinds])
+
+
+def float32_roundtrip_replay(kind):
+    """a model trained on float32 data answers float32 AND float64 queries bit for bit like its dict / JSON / file copies"""
+    import json
+    import pandas as pd
+    from copulas import univariate as U
+    from copulas.multivariate import GaussianMultivariate
+    rs = np.random.RandomState(91)
+    with _default_ambient():
+        if kind.startswith('gm'):
+            T = pd.DataFrame({'a': rs.normal(1.6e6, 300.0, 150), 'b': rs.uniform(0, 1, 150)}).astype('float32')
+            m = GaussianMultivariate(distribution={'a': U.GaussianUnivariate, 'b': U.UniformUnivariate})
+            m.fit(T)
+            c = GaussianMultivariate.from_dict(m.to_dict())
+            Q = T.iloc[:6]
+            pairs = [('probability_density', m.probability_density(Q), c.probability_density(Q)), ('cumulative_distribution', m.cumulative_distribution(Q), c.cumulative_distribution(Q))]
+        else:
+            cname, loc = kind.split('@')
+            data = (rs.normal(float(loc), 300.0, 150) if cname != 'UniformUnivariate' else rs.uniform(float(loc), float(loc) + 900, 150)).astype('float32')
+            m = getattr(U, cname)() if cname != 'Univariate' else U.Univariate(candidates=[U.GaussianUnivariate, U.UniformUnivariate])
+            m.fit(data)
+            d = m.to_dict()
+            c = U.Univariate.from_dict(d)        # (JSON of float32-trained parameters: finding F40, see float32_json_probe)
+            x32, q32 = data[:7], np.array([0.1, 0.37, 0.5, 0.93], dtype='float32')
+            pairs = []
+            for nm, arg in (('cumulative_distribution', x32), ('probability_density', x32), ('percent_point', q32), ('cumulative_distribution', x32.astype('float64')),
+                            ('percent_point', q32.astype('float64'))):
+                pairs.append((f'{nm}[{arg.dtype}]', getattr(m, nm)(arg), getattr(c, nm)(arg)))
+    for nm, a, b in pairs:
+        a, b = np.asarray(a, dtype=float), np.asarray(b, dtype=float)
+        if a.shape != b.shape or not np.array_equal(a, b, equal_nan=True):
+            k = int(np.nanargmax(np.abs(a - b))) if a.shape == b.shape else 0
+            return (f'{kind} trained on float32 data: {nm} of the original = {a.ravel()[k]!r}, of its from_dict copy = {b.ravel()[k]!r} '
+                    f'(max |difference| {float(np.nanmax(np.abs(a - b))) if a.shape == b.shape else "shape"})')
+    return None
+
+
+def float32_json_replay(cname, const):
+    import json
+    from copulas import univariate as U
+    data = np.full(12, 2.5, dtype='float32') if const else np.random.RandomState(0).gamma(2, 1, 50).astype('float32')
+    with _default_ambient():
+        m = getattr(U, cname)()
+        m.fit(data)
+        d = m.to_dict()
+    try:
+        json.dumps(d)
+    except TypeError as ex:
+        return (f'{cname} fitted on {"constant " if const else ""}float32 data: json.dumps(to_dict()) raises TypeError ({str(ex)[:60]}); the parameters are numpy float32 '
+                f'scalars: { {k: type(v).__name__ for k, v in d.items() if k != "type" and not isinstance(v, list)} }')
+    return None
+
+
+def float32_roundtrip(ctx):
+    kinds = ['GaussianUnivariate@1600000', 'GaussianUnivariate@3', 'UniformUnivariate@1600000', 'Univariate@1600000', 'gm']
+    _run_oracles(ctx, 'float32-roundtrip', 'rt:float32-training', [((k,), 'float32_roundtrip_replay', (k,)) for k in kinds])
+    # finding F40 (listed): reported through ctx.violation only, it is not an obligation of the run
+    for cname in ('GaussianUnivariate', 'UniformUnivariate', 'GammaUnivariate', 'BetaUnivariate', 'LogLaplace', 'TruncatedGaussian', 'GaussianKDE', 'StudentTUnivariate'):
+        for const in (False, True):
+            ctx.case(('float32-json', cname, const), None)
+            try:
+                why = float32_json_replay(cname, const)
+            except Exception as ex:
+                why = f'oracle raised {type(ex).__name__}: {str(ex)[:120]}'
+            if why:
+                ctx.violation(f'F40:float32-parameters-not-json-serialisable:{cname}:{"constant" if const else "data"}', why,
+                              {'class': cname, 'constant': const,
+                               'repro': f'from vf.extra_oracles3 import float32_json_replay\nwhy = float32_json_replay({cname!r}, {const!r})\nprint(why)\nassert why is None\n'})
+
+
+def _gm_conditional_bytes():
+    import pandas as pd
+    from copulas.multivariate import GaussianMultivariate
+    from copulas.univariate import GaussianUnivariate
+    with _default_ambient():
+        rng = np.random.RandomState(7)
+        z = rng.normal(size=(300, 6))
+        z[:, 1] += 0.9 * z[:, 0]
+        z[:, 2] += 0.5 * z[:, 0] - 0.7 * z[:, 1]
+        z[:, 3] += z[:, 2]
+        z[:, 4] -= 0.4 * z[:, 3] + 0.3 * z[:, 1]
+        z[:, 5] += z[:, 4]
+        T = pd.DataFrame(z, columns=['alpha', 'beta', 'gamma', 'delta', 'epsilon', 'zeta'])
+        m = GaussianMultivariate(distribution=GaussianUnivariate, random_state=11)
+        m.fit(T)
+        out = []
+        for cond in ({'alpha': 0.3, 'gamma': -0.2, 'epsilon': 1.1, 'zeta': 0.4}, {'zeta': 2.0, 'alpha': 0.5, 'gamma': -3.3}, pd.Series({'gamma': -2.0, 'beta': 2.9, 'delta': 0.1})):
+            out.append(m.sample(6, cond).to_numpy(dtype=float).tobytes().hex())
+        out.append(m.sample(4).to_numpy(dtype=float).tobytes().hex())
+    return out
+
+
+def gm_hashseed_replay():
+    """equal models, equal seeds, equal calls: bit-identical conditional samples in interpreters with different PYTHONHASHSEED"""
+    outs = _in_hashseeds('_gm_conditional_bytes', seeds=(0, 1, 2, 3))
+    ref = sorted(outs)[0]
+    for s, v in outs.items():
+        if v[0] == 'err':
+            return f'conditional sampling raised in a fresh interpreter with PYTHONHASHSEED={s}: {v[1]}'
+        if v != outs[ref]:
+            k = [i for i, (a, b) in enumerate(zip(v[1], outs[ref][1])) if a != b][0]
+            a = np.frombuffer(bytes.fromhex(v[1][k])).ravel()
+            b = np.frombuffer(bytes.fromhex(outs[ref][1][k])).ravel()
+            j = int(np.argmax(a != b))
+            return (f'seeded GaussianMultivariate.sample(conditions) call {k}: element {j} is {a[j]!r} with PYTHONHASHSEED={s} and {b[j]!r} with '
+                    f'PYTHONHASHSEED={ref}: the stream is not a function of (parameters, seed, calls)')
+    return None
+
+
+def gm_hashseed(ctx):
+    _run_oracles(ctx, 'gm-hash-seed', 'real:stream-depends-on-hash-seed', [(('conditional',), 'gm_hashseed_replay', ())])
+
+
+def gm_failed_column_state_replay():
+    """a fit in which a column could not be fitted by the configured class (it falls back, or the fit raises) leaves nothing behind that changes
+    how ANOTHER fit treats a column of that name"""
+    import pandas as pd
+    from copulas.multivariate import GaussianMultivariate
+    from copulas.univariate import GammaUnivariate, GaussianKDE
+    rs = np.random.RandomState(101)
+    clean = pd.DataFrame({'x': np.r_[rs.normal(-3, 0.5, 60), rs.normal(3, 0.5, 60)], 'y': rs.gamma(2.0, 1.0, 120)})
+    with _default_ambient():
+        for dist, poison in ((GaussianKDE, np.inf), (GammaUnivariate, 1e150), (GaussianKDE, np.nan)):
+            def fams(m):
+                return [u['type'].rsplit('.', 1)[1] for u in m.to_dict()['univariates']]
+            ref = GaussianMultivariate(distribution=dist)
+            ref.fit(clean.copy())
+            want = fams(ref)
+            bad = clean.copy()
+            bad.iloc[5, 0] = poison
+            first = GaussianMultivariate(distribution=dist)
+            try:
+                first.fit(bad)
+            except Exception:
+                pass
+            for how, m in (('a NEW equal model', GaussianMultivariate(distribution=dist)), ('the same model, re-fitted', first)):
+                m.fit(clean.copy())
+                if fams(m) != want:
+                    return (f'GaussianMultivariate(distribution={dist.__name__}): after a fit on a table whose column x holds {poison!r}, {how} fitted on clean data '
+                            f'models the columns as {fams(m)} instead of {want}')
+    return None
+
+
+def gm_failed_column_state(ctx):
+    _run_oracles(ctx, 'gm-failed-column', 'search:fit-leaves-state-shared-between-models', [(('poisoned-column',), 'gm_failed_column_state_replay', ())])
+
+
+def uni_fit_ambient_replay(cname):
+    """fit + queries of a univariate under the ambient conditions: same family, same parameters, same answers"""
+    from copulas import univariate as U
+    rs = np.random.RandomState(103)
+    data = np.r_[rs.normal(-3, 0.6, 70), rs.normal(3, 0.6, 70)] if cname in ('Univariate', 'GaussianKDE') else np.abs(rs.normal(3, 1, 120)) + 0.2
+    xs, qs = np.linspace(np.min(data), np.max(data), 6), np.array([0.1, 0.5, 0.9])
+
+    def thunk():
+        m = U.Univariate() if cname == 'Univariate' else getattr(U, cname)()
+        np.random.seed(4)
+        m.fit(data.copy())
+        d = m.to_dict()
+        return {'type': d['type'], 'params': {k: v for k, v in d.items() if isinstance(v, (int, float))},
+                'cdf': np.asarray(m.cumulative_distribution(xs), dtype=float).tolist(), 'pdf': np.asarray(m.probability_density(xs), dtype=float).tolist(),
+                'ppf': np.asarray(m.percent_point(qs), dtype=float).tolist()}
+    # scipy's generic optimiser and the KDE kernel sums underflow / overflow internally as part of the computation as written
+    traps = {'BetaUnivariate': ('errstate-raise', 'warnings-error'), 'GammaUnivariate': ('errstate-raise', 'warnings-error'), 'StudentTUnivariate': ('errstate-raise', 'warnings-error'),
+             'LogLaplace': ('errstate-raise', 'warnings-error'), 'GaussianKDE': ('errstate-raise',), 'Univariate': ('errstate-raise',),
+             'TruncatedGaussian': ('errstate-raise', 'warnings-error')}.get(cname, ())
+    return ambient_compare(thunk, traps)
+
+
+def uni_fit_ambient(ctx):
+    names = ['GaussianUnivariate', 'UniformUnivariate', 'GaussianKDE', 'Univariate', 'TruncatedGaussian', 'GammaUnivariate', 'BetaUnivariate']
+    _run_oracles(ctx, 'uni-ambient', 'search:ambient-condition-changes-fit', [((c,), 'uni_fit_ambient_replay', (c,)) for c in names])
+
+
+# ----------------------------------------------------------------------------------------------------------------------
+# vines (C16, C17), root finders (C18), plots (C20)
+# ----------------------------------------------------------------------------------------------------------------------
+class _Timeout(BaseException):          # not an Exception: no `except Exception` of the library swallows it
+    pass
+
+
+@contextlib.contextmanager
+def _alarm(seconds, what):
+    """a fit that does not return is a result, not a hung check (main thread only)"""
+    import signal
+
+    def handler(signum, frame):
+        raise _Timeout(f'{what} did not return within {seconds} s')
+    try:
+        old = signal.signal(signal.SIGALRM, handler)
+    except ValueError:          # not in the main thread: no guard
+        yield
+        return
+    signal.alarm(seconds)
+    try:
+        yield
+    finally:
+        signal.alarm(0)
+        signal.signal(signal.SIGALRM, old)
+
+
+def vine_edited_export_replay(vtype):
+    """runs _vine_edited_export in a fresh interpreter: the edit may poison process-wide state (a shared default object), and a construction
+    loop that stops making progress must not hang the check"""
+    import json
+    import os
+    import subprocess
+    import sys
+    from .core import REPO
+    tools = os.path.dirname(os.path.dirname(os.path.abspath(__file__)))
+    code = ('import sys, json, warnings\nwarnings.simplefilter("ignore")\nsys.path.insert(0, sys.argv[1]); sys.path.insert(0, sys.argv[2])\n'
+            'from vf import extra_oracles3 as E\nprint(json.dumps(E._vine_edited_export(sys.argv[3])))\n')
+    try:
+        r = subprocess.run([sys.executable, '-W', 'ignore', '-c', code, REPO, tools, vtype], stdout=subprocess.PIPE, stderr=subprocess.PIPE, text=True, timeout=150)
+    except subprocess.TimeoutExpired:
+        return (f'{vtype} vine: after another vine\'s exported objects (first-tree conditioning sets, to_dict lists) were edited in place, fitting NEW vines '
+                'did not finish within 150 s (the tree construction no longer makes progress)')
+    if r.returncode != 0:
+        return f'{vtype} vine: the edited-export history raised: {r.stderr[-200:]}'
+    return json.loads(r.stdout.strip().split('\n')[-1])
+
+
+def _vine_edited_export(vtype):
+    """fit A; edit in place whatever A hands out (the conditioning sets of its first-tree edges, the lists of its to_dict); fit a NEW vine B: B is a
+    valid vine of its own table; A.sample still returns the training columns in order"""
+    from copulas.multivariate import VineCopula
+    TA, TB = _gm_table(107, 90), _gm_table(109, 90)[['a', 'b', 'c']]
+    with _default_ambient():
+        A = VineCopula(vtype, random_state=1)
+        A.fit(TA)
+        d = A.to_dict()
+        for e in A.trees[0].edges:
+            if isinstance(e.D, set):
+                e.D.add(99)
+        for t in d.get('trees', []):
+            for e in t.get('edges', []):
+                if isinstance(e.get('D'), list):
+                    e['D'].append(77)
+        cols = d.get('columns')
+        if isinstance(cols, list):
+            cols.reverse()
+        B = VineCopula(vtype, random_state=1)
+        try:
+            with _alarm(60, 'fit'):
+                B.fit(TB)
+        except _Timeout:
+            return (f'{vtype} vine fitted AFTER another vine\'s exported first-tree edges were edited in place: fit did not return within 60 s '
+                    '(the tree construction no longer makes progress)')
+        except Exception as ex:
+            return f'{vtype} vine fitted AFTER another vine\'s exported first-tree edges were edited in place: fit raises {type(ex).__name__}: {str(ex)[:80]}'
+        for k, t in enumerate(B.trees):
+            for e in t.edges:
+                if len(e.D) != k:
+                    return (f'{vtype} vine fitted AFTER another vine\'s exported first-tree edges were edited in place: tree {k + 1} edge ({e.L},{e.R}) has the '
+                            f'conditioning set {sorted(e.D)} (size {len(e.D)} instead of {k})')
+        A2 = VineCopula(vtype, random_state=1)
+        try:
+            with _alarm(60, 'fit'):
+                A2.fit(TA)
+        except _Timeout:
+            return f'{vtype} vine: a NEW model\'s fit did not return within 60 s after another model\'s exported objects were edited in place'
+        S = A2.sample(3)
+        if list(S.columns) != list(TA.columns):
+            return f'{vtype} vine: sample() of a NEW model has the columns {list(S.columns)} after another model\'s to_dict()["columns"] was edited'
+        S1 = A.sample(3)
+        if list(S1.columns) != list(TA.columns):
+            return f'{vtype} vine: after the caller reversed to_dict()["columns"] in place, sample() returns the columns {list(S1.columns)} instead of {list(TA.columns)}'
+    return None
+
+
+def vine_truncation_kinds_replay(vtype, kind):
+    from copulas.multivariate import VineCopula
+    T = _gm_table(113, 70).assign(e=np.random.RandomState(1).normal(size=70))
+    mk = {'python-int': int, 'np.int64': np.int64, 'np.int32': np.int32, 'np.uint8': np.uint8, '0-d-array': lambda v: np.array(v)}[kind]
+    with _default_ambient():
+        for t in (1, 2):
+            m = VineCopula(vtype)
+            m.fit(T, truncated=mk(t))
+            if len(m.trees) != min(T.shape[1] - 1, t):
+                return f'VineCopula({vtype!r}).fit(5 columns, truncated={kind}({t})) holds {len(m.trees)} trees instead of {min(T.shape[1] - 1, t)}'
+    return None
+
+
+def vine_int_table_replay(vtype):
+    """an integer-valued table given as int64 and as float64: same model, same seeded sample"""
+    import pandas as pd
+    from copulas.multivariate import VineCopula
+    rs = np.random.RandomState(127)
+    lam = rs.gamma(3.0, 2.0, 150)
+    T = pd.DataFrame({'n1': rs.poisson(lam), 'n2': rs.poisson(lam * 0.7 + 2), 'n3': rs.poisson(5, 150)}).astype('int64')
+    with _default_ambient():
+        outs = []
+        for tab in (T, T.astype('float64')):
+            m = VineCopula(vtype, random_state=5)
+            np.random.seed(8)
+            m.fit(tab)
+            outs.append(m.sample(40).to_numpy(dtype=float))
+    if outs[0].shape != outs[1].shape or not np.allclose(outs[0], outs[1], rtol=1e-12, atol=0, equal_nan=True):
+        frac = float(np.mean(outs[0] == np.floor(outs[0])))
+        return (f'VineCopula({vtype!r}) fitted on an int64 table samples {outs[0][0].tolist()}; fitted on the same numbers as float64 it samples {outs[1][0].tolist()} '
+                f'(share of integer-valued cells {frac:.2f}: the fitted marginals are continuous)')
+    return None
+
+
+def vine_round6(ctx, which):
+    cases = []
+    for vt in ('center', 'direct', 'regular'):
+        if which == 'C16':
+            cases.append((('edited-export', vt), 'vine_edited_export_replay', (vt,)))
+            cases += [(('truncation-kind', vt, k), 'vine_truncation_kinds_replay', (vt, k)) for k in ('np.int64', 'np.uint8', '0-d-array')]
+        else:
+            cases.append((('edited-export', vt), 'vine_edited_export_replay', (vt,)))
+            cases.append((('int-table', vt), 'vine_int_table_replay', (vt,)))
+    _run_oracles(ctx, 'vine-r6', 'search:vine', cases)
+
+
+def rootfinder_results_owned_replay(which):
+    """the root vector a solver returned is not rewritten by later calls of the same shape (direct calls and the library's own, through the KDE)"""
+    from copulas.optimize import bisect, chandrupatla
+    from copulas.univariate import GaussianKDE
+    solver = bisect if which == 'bisect' else chandrupatla
+    with _default_ambient():
+        for n in (1, 4, 9):
+            t1, t2 = np.linspace(0.5, 3.5, n), np.linspace(4.2, 7.7, n)
+            r1 = solver(lambda x: x ** 3 - t1 ** 3, np.zeros(n), np.full(n, 10.0))
+            keep = np.array(r1, dtype=float)
+            r2 = solver(lambda x: x - t2, np.zeros(n), np.full(n, 10.0))
+            if r2 is r1:
+                return f'{which}: two calls with brackets of length {n} returned ONE array object'
+            if not np.array_equal(np.asarray(r1, dtype=float), keep):
+                return f'{which} (n = {n}): the roots returned by an earlier call changed when {which} was called again: {keep.tolist()} -> {np.asarray(r1, dtype=float).tolist()}'
+            k = GaussianKDE()
+            k.fit(_uni_data())
+            k.percent_point(np.linspace(0.2, 0.8, n), method=which)
+            if not np.array_equal(np.asarray(r1, dtype=float), keep):
+                return f'{which} (n = {n}): the roots returned earlier changed when GaussianKDE.percent_point(method={which!r}) ran'
+    return None
+
+
+def rootfinder_round6(ctx):
+    cases = [((w,), 'rootfinder_results_owned_replay', (w,)) for w in ('bisect', 'chandrupatla')]
+    _run_oracles(ctx, 'rootfinder-results-owned', 'search:returned-array-not-owned-by-caller', cases)
+    cases = [(('GaussianKDE', 'percent_point', meth), 'kde_ppf_lanes_replay', (meth,)) for meth in ('bisect', 'chandrupatla')]
+    _run_oracles(ctx, 'kde-ppf-lanes', 'search:lane-solved-for-another-target', cases)
+
+
+def kde_ppf_lanes_replay(method):
+    """the in-library caller of the solvers hands lane i the target of lane i: probabilities as Series with a permuted / gapped / string index"""
+    import pandas as pd
+    from copulas.univariate import GaussianKDE
+    u = np.array([0.62, 0.07, 0.41, 0.2, 0.93, 0.3, 0.77, 0.0, 1.0, 0.55])
+    with _default_ambient():
+        k = GaussianKDE()
+        k.fit(_uni_data())
+        ref = np.asarray(k.percent_point(u.copy(), method=method), dtype=float)
+        for nm, idx in (('permuted', [3, 0, 6, 1, 5, 2, 4, 9, 8, 7]), ('gapped', [0, 2, 4, 6, 8, 10, 12, 14, 16, 18]), ('strings', list('abcdefghij')), ('shifted', list(range(50, 60)))):
+            try:
+                got = np.asarray(k.percent_point(pd.Series(u.copy(), index=idx), method=method), dtype=float)
+            except Exception as ex:
+                return f'GaussianKDE.percent_point(method={method!r}) raises {type(ex).__name__} for probabilities in a Series with a {nm} index (every bracket is valid)'
+            if got.shape != ref.shape or not np.allclose(got, ref, rtol=1e-9, atol=1e-12, equal_nan=True):
+                j = int(np.nanargmax(np.abs(got - ref)))
+                return (f'GaussianKDE.percent_point(method={method!r}) with the probabilities in a Series with a {nm} index: lane {j} = {got[j]!r}, solved alone '
+                        f'{ref[j]!r} (target {u[j]})')
+    return None
+
+
+def plot_row_index_replay(fn, index_kind):
+    """every given row appears exactly once under its label whatever the ROW index of the frames"""
+    import pandas as pd
+    from copulas import visualization as V
+    rs = np.random.RandomState(131)
+    k = 3 if fn.endswith('3d') else 2
+    cols = ['x', 'y', 'z'][:k]
+    n = 14
+    real = pd.DataFrame(rs.randint(-9, 10, size=(n, k)).astype(float), columns=cols)
+    synth = pd.DataFrame(rs.randint(-9, 10, size=(n - 3, k)).astype(float) + 0.5, columns=cols)
+
+    def reindex(df):
+        m = len(df)
+        df = df.copy()
+        if index_kind == 'filtered':
+            big = pd.concat([df, df]).reset_index(drop=True)
+            big.iloc[::2] = df.to_numpy()
+            return big.iloc[::2]
+        df.index = {'shifted': range(100, 100 + m), 'strings': [f'r{i}' for i in range(m)], 'duplicated': [i // 2 for i in range(m)], 'reversed': range(m - 1, -1, -1),
+                    'timestamps': pd.date_range('2020-01-01', periods=m), 'multiindex': pd.MultiIndex.from_arrays([[i % 2 for i in range(m)], list(range(m))])}[index_kind]
+        return df
+    R, S = reindex(real), reindex(synth)
+    with _default_ambient():
+        fig = getattr(V, fn)(R, S) if fn.startswith('compare') else getattr(V, fn)(R)
+    pts = {}
+    for tr in fig.data:
+        coords = [np.asarray(getattr(tr, a), dtype=float) for a in ('x', 'y', 'z')[:k]]
+        for row in zip(*coords):
+            pts.setdefault(tr.name, []).append(tuple(float(v) for v in row))
+    want = {'Real': sorted(map(tuple, R.to_numpy(dtype=float).tolist()))}
+    if fn.startswith('compare'):
+        want['Synthetic'] = sorted(map(tuple, S.to_numpy(dtype=float).tolist()))
+    got = {kk: sorted(v) for kk, v in pts.items()}
+    if got != want:
+        return (f'{fn} on frames with a {index_kind} row index draws { {kk: len(v) for kk, v in got.items()} } points; the frames hold '
+                f'{ {kk: len(v) for kk, v in want.items()} } rows (every row once under its label)')
+    return None
+
+
+def plot_row_index(ctx, quick=True):
+    kinds = ('filtered', 'strings', 'duplicated') if quick else ('filtered', 'shifted', 'strings', 'duplicated', 'reversed', 'timestamps', 'multiindex')
+    cases = [((fn, k), 'plot_row_index_replay', (fn, k)) for fn in ('scatter_2d', 'scatter_3d', 'compare_2d', 'compare_3d') for k in kinds]
+    _run_oracles(ctx, 'plot-row-index', 'plot-rows:row-index', cases)
